@@ -48,6 +48,14 @@ file_create(struct file* file, const char* filename, size_t bytesof_filename)
             close(file->fid);
             CHECK_POSIX(tmp);
         }
+        // This is a *new* file: drop the contents of an existing file of the
+        // same name (as CREATE_ALWAYS does on windows), but only once we own
+        // the lock.
+        if (ftruncate(file->fid, 0) < 0) {
+            int tmp = errno;
+            close(file->fid);
+            CHECK_POSIX(tmp);
+        }
     }
     return 1;
 Error:
